@@ -138,6 +138,13 @@ func checkNewCall(
 		return nil
 	}
 
+	// Only the predeclared new allocates: a local function or variable may be named new as well
+	if obj := pass.TypesInfo.Uses[ident]; obj != nil {
+		if _, builtin := obj.(*types.Builtin); !builtin {
+			return nil
+		}
+	}
+
 	t := pass.TypesInfo.TypeOf(call.Args[0])
 	if t == nil {
 		return nil
